@@ -55,7 +55,7 @@ func ruleSAVEDONLY(w *World, r *Report) {
 			r.bad("SAVEDONLY", key, w.ipos(ap), "a data slot can be added for an entry that is not saved in the volume set: the number of shards no longer matches the set and Repair's entry mapping is shifted")
 		}
 	}
-	r.floor("SAVEDONLY", "appends to the data slots", n, 2)
+	r.floor("SAVEDONLY", "appends to the data slots", n, 1)
 }
 
 // ---------------------------------------------------------------------------
@@ -873,6 +873,15 @@ func rulePAR1NOPAR(w *World, r *Report) {
 					}
 				}
 			}
+			// the same, said through the counts: d.FileCounts().RepairNeeded() is true exactly when a
+			// data file is unusable (DECIDE checks that predicate and the counter's edges)
+			if cm.Op == token.NEQ && cm.Y == nil {
+				if rn, ok := stripAllConv(cm.X).(*ssa.Call); ok && staticCalleeShort(&rn.Call) == "(par1.FileCounts).RepairNeeded" && len(rn.Call.Args) == 1 {
+					if fc, ok := stripAllConv(resolveSingle(rn.Call.Args[0])).(*ssa.Call); ok && staticCalleeShort(&fc.Call) == "(*par1.Decoder).FileCounts" {
+						missing = true
+					}
+				}
+			}
 		}
 		if noParity && missing {
 			found = true
@@ -1241,21 +1250,43 @@ func ruleSIZESENT(w *World, r *Report) {
 				}
 				n++
 				key := fmt.Sprintf("%s:shardByteCount-set#%d", shortName(f), n-1)
-				good := false
-				for _, c := range cmpsAt(b) {
-					if c.Op != token.EQL || c.Y == nil {
-						continue
+				// the cell is still 0, or the value stored is the value it already has
+				holds := func(cmps []Cmp) bool {
+					for _, c := range cmps {
+						if c.Op != token.EQL || c.Y == nil {
+							continue
+						}
+						for _, pr := range [][2]ssa.Value{{c.X, c.Y}, {c.Y, c.X}} {
+							z, isC := constInt(pr[1])
+							ld, isLd := stripAllConv(pr[0]).(*ssa.UnOp)
+							if !isLd || ld.Op != token.MUL || ld.X != st.Addr {
+								continue
+							}
+							if isC && z == 0 {
+								return true
+							}
+							if stripAllConv(pr[1]) == stripAllConv(st.Val) {
+								return true
+							}
+						}
 					}
-					for _, pr := range [][2]ssa.Value{{c.X, c.Y}, {c.Y, c.X}} {
-						z, isC := constInt(pr[1])
-						ld, isLd := stripAllConv(pr[0]).(*ssa.UnOp)
-						if isC && z == 0 && isLd && ld.Op == token.MUL && ld.X == st.Addr {
-							good = true
+					return false
+				}
+				good := holds(cmpsAt(b))
+				if !good && len(b.Preds) > 1 {
+					good = true
+					for _, p := range b.Preds {
+						cm := cmpsAt(p)
+						if iff, ok := p.Instrs[len(p.Instrs)-1].(*ssa.If); ok && p.Succs[0] != p.Succs[1] {
+							cm = append(cm, factCmps(Fact{iff.Cond, p.Succs[0] == b, iff})...)
+						}
+						if !holds(cm) {
+							good = false
 						}
 					}
 				}
 				if good {
-					r.ok("SIZESENT", key, w.ipos(st), "set only while it is still 0")
+					r.ok("SIZESENT", key, w.ipos(st), "set only while it is still 0 (or to the value it already has)")
 				} else {
 					r.bad("SIZESENT", key, w.ipos(st), "shardByteCount is set on a condition other than 'still 0': when the first volume found is not the one the condition expects, every volume is rejected as mismatched")
 				}
